@@ -232,6 +232,7 @@ class BlockNode(Node):
         )
 
         block_drop.block_context = ctx
+        block_drop.block_carry = ctx.loop_iteration_carry
 
         return stack_item.block.block.render(ctx, buffer)
 
@@ -288,6 +289,7 @@ class BlockNode(Node):
         )
 
         block_drop.block_context = ctx
+        block_drop.block_carry = ctx.loop_iteration_carry
         return await stack_item.block.block.render_async(ctx, buffer)
 
     def children(
@@ -367,7 +369,15 @@ class _BlockStackItem:
 class BlockDrop(Mapping[str, object]):
     """A `block` object with a `super` property."""
 
-    __slots__ = ("token", "buffer", "context", "name", "parent", "block_context")
+    __slots__ = (
+        "token",
+        "buffer",
+        "context",
+        "name",
+        "parent",
+        "block_context",
+        "block_carry",
+    )
 
     def __init__(
         self,
@@ -387,6 +397,9 @@ class BlockDrop(Mapping[str, object]):
         self.block_context: RenderContext | None = None
         """The context the overriding block is rendered in, if it is not `context`."""
 
+        self.block_carry = 1
+        """The loop iteration carry of `block_context` when it was created."""
+
     def __str__(self) -> str:  # pragma: no cover
         return f"BlockDrop({self.name})"
 
@@ -405,6 +418,7 @@ class BlockDrop(Mapping[str, object]):
         # been reached from inside loops belonging to the overriding block's context.
         iterations = 1
         if self.block_context is not None:
+            iterations = self.block_context.loop_iteration_carry // self.block_carry
             for loop in self.block_context.loops:
                 iterations *= max(loop.length, 1)
 
